@@ -38,7 +38,11 @@ def lhsT? : String → Option LhsT
   | "None" => some .none | "Log" => some .log | "Diff" => some .diff | "DiffLog" => some .diffLog
   | "Roc" => some .roc | "Pct" => some .pct | _ => none
 
-def planT? : String → Option PlanT
+/-- a plan transform given by class name, or as `@<keyword>` by the keyword passed to `exogenize(transform=...)` (`@` = None),
+resolved by the model's `PlanT.ofSpelling?` -/
+def planT? (s : String) : Option PlanT :=
+  if s.startsWith "@" then PlanT.ofSpelling? (s.drop 1).toString else planClass? s
+where planClass? : String → Option PlanT
   | "None" => some .none | "Log" => some .log | "Diff" => some .diff | "DiffLog" => some .diffLog
   | "Roc" => some .roc | "Pct" => some .pct | "Flat" => some .flat | _ => none
 
